@@ -2,6 +2,7 @@
 package c10
 
 import (
+	"encoding/hex"
 	"fmt"
 	"math/big"
 	"sort"
@@ -331,6 +332,40 @@ func run(thorough bool) func(shard, shards int, deadline time.Time) *explore.Res
 						res.Outcomes["switch/update-rejected"]++
 						continue
 					}
+					if entry == m.addr.String() {
+						// the same setting reached by two other histories (one transaction each, same oracle below):
+						// (a) after the update, an update that clears the switch runs on a branch that is thrown away (a block
+						//     that is not decided, a simulation) and the precompile is called there once;
+						// (b) governance writes the stored switch value with a raw store update instead of the typed message
+						for _, route := range []string{"discarded-clearing-update", "raw-store-update"} {
+							rctx := world.Branch(ctx)
+							switch route {
+							case "discarded-clearing-update":
+								decoy := world.Branch(ctx)
+								if cr := w.Deliver(decoy, &fxgovtypes.MsgUpdateSwitchParams{Authority: world.GovAuthority(), Params: fxgovtypes.SwitchParams{}}); !cr.OK() {
+									panic("c10: clearing update refused: " + cr.String())
+								}
+								w.EthTx(decoy, e.v, &m.addr, data, m.value, 3_000_000)
+							case "raw-store-update":
+								rctx = world.Branch(e.ctx)
+								w.EthTx(world.Branch(rctx), e.v, &m.addr, data, m.value, 3_000_000) // the node has looked the switch up before
+								gs := scen.Store(w, rctx, "gov")
+								oldV := hex.EncodeToString(gs.Get(fxgovtypes.FxSwitchParamsKey))
+								newV := hex.EncodeToString(scen.Store(w, ctx, "gov").Get(fxgovtypes.FxSwitchParamsKey))
+								if ur := w.Deliver(rctx, &fxgovtypes.MsgUpdateStore{Authority: world.GovAuthority(), UpdateStores: []fxgovtypes.UpdateStore{{Space: "gov", Key: hex.EncodeToString(fxgovtypes.FxSwitchParamsKey), OldValue: oldV, Value: newV}}}); !ur.OK() {
+									panic("c10: raw store update refused: " + ur.String())
+								}
+							}
+							rr := w.EthTx(rctx, e.v, &m.addr, data, m.value, 3_000_000)
+							res.Transitions++
+							res.Extra["evaluations"]++
+							res.Outcomes[fmt.Sprintf("switch/%s/success=%v", route, rr.Success())]++
+							distinct[envName+"switch/"+route+"/"+m.label] = true
+							if rr.Success() {
+								viol("C10/disabled-precompile-executes/"+m.name+"/"+route, "governance-switch-respected", fmt.Sprintf("%sswitch[%s] set through %s: v calls %s succeeded", envName, entry, route, m.label), envName+route+m.label)
+							}
+						}
+					}
 					dBefore := w.Dump(ctx)
 					r := w.EthTx(ctx, e.v, &m.addr, data, m.value, 3_000_000)
 					res.Transitions++
@@ -378,7 +413,7 @@ func init() {
 	registry.Register(&registry.Check{
 		ID:          "C10",
 		Level:       "model_checking",
-		Rule:        "exhaustive enumeration of (starter in {attacker, spender, victim}) x (direct call | attacker contract using CALL, STATICCALL, DELEGATECALL, CALLCODE, CALL nested inside a STATICCALL frame) x (12 state-changing precompile methods with arguments naming the victim's assets) x (governance switch entry: address, lower-case address, address/method) executed as signed EVM transactions against a victim portfolio (FX, usdt coin and ERC-20 with approval to the precompile, delegation with rewards, allowance to a spender, pool entry); oracle: the victim's portfolio is not reduced except by the allowance-backed move, which is exact; non-CALL contexts fail and leave no native store change; disabled entries cannot execute. states = distinct (case, outcome) classes, transitions = transactions executed",
+		Rule:        "exhaustive enumeration of (starter in {attacker, spender, victim}) x (direct call | attacker contract using CALL, STATICCALL, DELEGATECALL, CALLCODE, CALL nested inside a STATICCALL frame) x (12 state-changing precompile methods with arguments naming the victim's assets) x (governance switch entry: address, lower-case address, address/method; the address entry also after a clearing update on a discarded branch and when written by a raw store update) executed as signed EVM transactions against a victim portfolio (FX, usdt coin and ERC-20 with approval to the precompile, delegation with rewards, allowance to a spender, pool entry); oracle: the victim's portfolio is not reduced except by the allowance-backed move, which is exact; non-CALL contexts fail and leave no native store change; disabled entries cannot execute. states = distinct (case, outcome) classes, transitions = transactions executed",
 		Assumptions: []string{"contracts are hand-assembled straight-line programs (evmasm); the victim's own direct calls are unconstrained"},
 		Jobs: func(tier string) []registry.Job {
 			return []registry.Job{{Name: "callers-x-kinds-x-methods", Custom: run(tier == "thorough"), Shards: 8}}
